@@ -90,6 +90,14 @@ def seq_case(rng, ts, seq, group, split=False):
                 out_trees = None
     lines = [Line("corr", "convert_seq", ["export", "-", "export", "-", "n", cs, proto.enc_s(text)], got,
                   note=("command failed: " + err[-200:]) if rc != 0 else "")]
+    DROPPING = ("filter_by_length", "punctuation_delete", "ptb_delete_traces", "delete_terminal", "insert_terminals", "substitute_terminals")
+    if out_trees is not None and len(out_trees) == len(ts) and not any(c[0] in DROPPING for c in seq):
+        # no step of the sequence adds or removes tokens: what was written has the words of what was read, in order
+        # (after collapsing, a token's tag is the concatenated chain: only the words are compared then)
+        collapsed = any(c[0] == "collapse_unary_chains" for c in seq)
+        for t_in, o in zip(ts, out_trees):
+            if o.children:
+                lines.append(Line("pred", "P.C04.words", [proto.enc_tree(t_in), proto.enc_tree(o), "t" if collapsed else "f"]))
     if seq and out_trees is not None and len(out_trees) == len(ts):
         # the post-condition of the LAST call must hold of what was written, whatever preceded it
         last = tx.call_str(seq[-1][0], seq[-1][1])
